@@ -152,7 +152,8 @@ template<class T> void drive() {
 static void body(int argc, char** argv) {
     g_thorough = argc > 2 && std::string(argv[2]) == "thorough";
     Rng rng(seed_from_env()); g_rng = &rng;
-    drive<float>(); drive<double>(); drive<int>(); drive<unsigned int>();
+    const bool simd = argc > 2 && std::string(argv[2]) == "simd";      // SIMD builds: the element types that have intrinsic specialisations
+    drive<float>(); drive<int>(); if (!simd) { drive<double>(); drive<unsigned int>(); }
     if (g_thorough) { drive<short>(); drive<unsigned char>(); }
 }
 int main(int argc, char** argv) { return run_main(argc, argv, body); }
